@@ -201,7 +201,13 @@ class Ctx:
             try:
                 impl, oracle = np.broadcast_arrays(impl, oracle)
             except ValueError:
-                raise HarnessError("%s: shape mismatch impl %s vs oracle %s" % (name, impl.shape, oracle.shape))
+                # a result of the wrong shape is a violation (replayed in float mode like any other), not a harness error
+                note = "shape of the implementation's result %s differs from the expected %s" % (impl.shape, oracle.shape)
+                if self.sym:
+                    self.obligations.append(Obligation(name, "holds", [S.FALSE], [[0]], [], [], None, None, note, 0))
+                else:
+                    self.float_records[name] = {"err": float("inf"), "scale": 1.0, "where": [], "violated": True, "impl_at": list(impl.shape), "oracle_at": list(oracle.shape)}
+                return
         if self.sym:
             res, labels, im = [], [], []
             for i in np.ndindex(*impl.shape):
